@@ -11,7 +11,11 @@ package main
 //           Certificate) | skx (a non-empty one) | dup-shd (ServerHelloDone twice) | shd-body (ServerHelloDone with a
 //           body) | cert-twice | hreq-first (HelloRequest before ServerHello) | unk (unknown message type before
 //           ServerHelloDone) | status (an unsolicited CertificateStatus) | fin-first (Finished before ChangeCipherSpec,
-//           in the clear, then the ChangeCipherSpec)
+//           in the clear, then the ChangeCipherSpec) | sh-vers-<hhhh> (ServerHello.server_version hhhh, everything else
+//           TLS 1.2: a version above the client's offer) | ticket-unsolicited (session_ticket extension in the
+//           ServerHello and a NewSessionTicket before the ChangeCipherSpec, to a client that did not offer tickets) |
+//           fin-trail-fin / fin-trail-shd / fin-trail-byte (the record of the server's Finished also holds a second
+//           Finished / a ServerHelloDone / one stray byte)
 // client options: "-" or "+"-joined: reneg (Config.Renegotiation = RenegotiateFreelyAsClient), once (…OnceAsClient)
 // Printed: done | error, for the gmtls CLIENT's Handshake; ORACLE-FAIL when it completes although the server
 // misbehaved, panics, or does not return. The Lean side prints what the property demands: done for honest, error
@@ -206,10 +210,21 @@ func c15eRun(s *c15eServer, variant string, std *stdPKI) error {
 	if variant == "hreq-first" {
 		s.sendHs(0, nil)
 	}
-	sh := append([]byte{3, 3}, serverRandom...)
+	shVers := []byte{3, 3}
+	if strings.HasPrefix(variant, "sh-vers-") {
+		v, ok := unhx(variant[len("sh-vers-"):])
+		if !ok || len(v) != 2 {
+			return fmt.Errorf("bad variant")
+		}
+		shVers = v
+	}
+	sh := append(append([]byte{}, shVers...), serverRandom...)
 	sh = append(sh, 0)          // empty session id
 	sh = append(sh, 0x00, 0x9c) // TLS_RSA_WITH_AES_128_GCM_SHA256
 	sh = append(sh, 0)          // null compression
+	if variant == "ticket-unsolicited" {
+		sh = append(sh, 0, 4, 0, 35, 0, 0) // extensions: session_ticket, empty
+	}
 	s.sendHs(2, sh)
 	var certs []byte
 	for _, c := range std.rsaServer.Certificate {
@@ -266,9 +281,20 @@ func c15eRun(s *c15eServer, variant string, std *stdPKI) error {
 	if err != nil || typ != 20 || !hmac.Equal(fin, wantClientFin) {
 		return fmt.Errorf("client Finished: %v", err)
 	}
+	if variant == "ticket-unsolicited" {
+		s.sendHs(4, []byte{0, 0, 0, 0, 0, 3, 0xaa, 0xbb, 0xcc}) // NewSessionTicket: lifetime hint 0, a 3-byte ticket
+	}
 	h = sha256.Sum256(s.transcript)
 	vd := c15ePRF(master, "server finished", h[:], 12)
 	finMsg := append([]byte{20, 0, 0, 12}, vd...)
+	switch variant {
+	case "fin-trail-fin":
+		finMsg = append(finMsg, finMsg...)
+	case "fin-trail-shd":
+		finMsg = append(finMsg, 14, 0, 0, 0)
+	case "fin-trail-byte":
+		finMsg = append(finMsg, 0xee)
+	}
 	seal := func(seq uint64, typ byte, pt []byte) []byte {
 		blk, _ := aes.NewCipher(serverKey)
 		g, _ := cipher.NewGCM(blk)
@@ -298,16 +324,18 @@ func c15eRun(s *c15eServer, variant string, std *stdPKI) error {
 
 func c15eGen(r *rng, tier string, emit func(string)) {
 	for _, opt := range []string{"-", "reneg", "once"} {
-		for _, v := range []string{"honest", "omit-ccs", "fin-first", "skx0", "skx", "dup-shd", "shd-body", "cert-twice", "hreq-first", "unk", "status"} {
+		for _, v := range []string{"honest", "omit-ccs", "fin-first", "skx0", "skx", "dup-shd", "shd-body", "cert-twice", "hreq-first", "unk", "status",
+			"sh-vers-0304", "sh-vers-0400", "sh-vers-ffff", "sh-vers-0302", "ticket-unsolicited", "fin-trail-fin", "fin-trail-shd", "fin-trail-byte"} {
 			emit(fmt.Sprintf("evilsrv %s %s %x", v, opt, r.u64()))
 		}
-		for _, v := range []string{"honest", "omit-ccs", "fin-first", "skx-twice", "status", "nst-early", "hreq", "unk", "dup-shd"} {
+		for _, v := range []string{"honest", "omit-ccs", "fin-first", "skx-twice", "status", "nst-early", "hreq", "unk", "dup-shd",
+			"ticket-unsolicited", "fin-trail-fin", "fin-trail-shd", "fin-trail-byte"} {
 			emit(fmt.Sprintf("evilgm %s %s %x", v, opt, r.u64()))
 		}
 	}
 	for _, opt := range []string{"-", "npn", "npn+auth"} {
 		for _, v := range []string{"honest", "npn-honest", "npn-omit", "npn-twice", "omit-ccs", "fin-first", "fin-twice", "fin-bad", "hreq-before-ccs", "unk-before-ccs",
-			"cke-again", "unk-after-ccs", "fin-early-after-ccs"} {
+			"cke-again", "unk-after-ccs", "fin-early-after-ccs", "fin-trail-fin", "fin-trail-ckx", "fin-trail-byte"} {
 			emit(fmt.Sprintf("evilgmc %s %s %x", v, opt, r.u64()))
 		}
 	}
@@ -320,7 +348,9 @@ func c15eGen(r *rng, tier string, emit func(string)) {
 // server announces NPN to a hello that carries the NPN extension and no ALPN), auth (RequireAndVerifyClientCert).
 // variant: honest | npn-honest (hello with NPN, NextProtocol sent) | npn-omit (NextProtocol left out) | npn-twice |
 // omit-ccs | fin-first | fin-twice | fin-bad | hreq-before-ccs | unk-before-ccs | cke-again (a second
-// ClientKeyExchange after ChangeCipherSpec) | unk-after-ccs | fin-early-after-ccs (Finished, then NextProtocol)
+// ClientKeyExchange after ChangeCipherSpec) | unk-after-ccs | fin-early-after-ccs (Finished, then NextProtocol) |
+// fin-trail-fin / fin-trail-ckx / fin-trail-byte (handshake bytes behind the Finished in the SAME record; fin-twice
+// sends its second Finished in a record of its own, after the handshake is over)
 // The server completes with the honest variants and with no other.
 func init() { evals["evilgmc"] = evalEvilGMC }
 
@@ -386,6 +416,12 @@ func evalEvilGMC(args []string) string {
 	case "fin-early-after-ccs":
 		k.NPNOnly = true
 		k.ExtraAfterCCS = [][]byte{mk(20, make([]byte, 12))}
+	case "fin-trail-fin": // handshake bytes behind the Finished, in the same record
+		k.FinishedTrail = mk(20, make([]byte, 12))
+	case "fin-trail-ckx":
+		k.FinishedTrail = mk(16, []byte{0, 0})
+	case "fin-trail-byte":
+		k.FinishedTrail = []byte{0xee}
 	default:
 		return "bad-op"
 	}
@@ -413,7 +449,9 @@ func evalEvilGMC(args []string) string {
 // genuine signing and encryption keys, so the transcript stays consistent). variant: honest | omit-ccs | fin-first |
 // skx-twice (a second, empty ServerKeyExchange before ServerHelloDone) | status (CertificateStatus before
 // ServerHelloDone) | hreq (HelloRequest after ServerHello) | unk (unknown type after ServerHello) | dup-shd |
-// nst-early (NewSessionTicket before ServerHelloDone)
+// nst-early (NewSessionTicket before ServerHelloDone) | ticket-unsolicited (session_ticket extension and NewSessionTicket
+// for a client that did not offer tickets) | fin-trail-fin / fin-trail-shd / fin-trail-byte (handshake bytes behind the
+// Finished in the same record)
 func init() { evals["evilgm"] = evalEvilGM }
 
 func evalEvilGM(args []string) string {
@@ -458,6 +496,14 @@ func evalEvilGM(args []string) string {
 		k.ExtraAfterHello = [][]byte{mk(99, nil)}
 	case "dup-shd":
 		k.DoneTwice = true
+	case "ticket-unsolicited": // the client has no session cache: its hello carries no session_ticket extension
+		k.UnsolicitedTicket = true
+	case "fin-trail-fin": // handshake bytes behind the Finished, in the same record
+		k.FinishedTrail = mk(20, make([]byte, 12))
+	case "fin-trail-shd":
+		k.FinishedTrail = mk(14, nil)
+	case "fin-trail-byte":
+		k.FinishedTrail = []byte{0xee}
 	default:
 		return "bad-op"
 	}
